@@ -31,7 +31,11 @@ def run(item):
         for fn in os.listdir(pdir):
             if fn.endswith('.go'):
                 p = os.path.join(pdir, fn); s = open(p).read()
-                t = re.sub(r'\b' + re.escape(simple) + r'\b', new, s)
+                # identifiers only: string literals, raw strings and comments keep their text (a key like "input" is data)
+                parts = re.split(r'("(?:[^"\\\n]|\\.)*"|`[^`]*`|//[^\n]*)', s)
+                for i in range(0, len(parts), 2):
+                    parts[i] = re.sub(r'\b' + re.escape(simple) + r'\b', new, parts[i])
+                t = ''.join(parts)
                 if t != s: open(p, 'w').write(t)
         b = subprocess.run(['go', 'build', './...'], cwd=d, env=env, capture_output=True, text=True)
         if b.returncode != 0:
